@@ -646,9 +646,12 @@ func ruleParserUniqueness(r *Run) {
 	o := r.Ob("PV-API", "string literal unquoting", "a string token's text is unquoted once, in the lexer (strutil.Unquote); the parser never unquotes token text again")
 	n := 0
 	if lx != nil {
-		for _, c := range callsIn(lx) {
-			if callee := staticCallee(c); callee != nil && callee.Name() == "Unquote" {
-				n++
+		// in nextToken or a helper of it
+		for _, gf := range funcGroup(lx) {
+			for _, c := range callsIn(gf) {
+				if callee := staticCallee(c); callee != nil && callee.Name() == "Unquote" {
+					n++
+				}
 			}
 		}
 	}
